@@ -6,7 +6,7 @@ use std::{path::PathBuf, process::Command, time::Instant};
 use serde_json::{json, Value};
 
 use crate::{
-	c03, c04, c07, c16, c18,
+	c03, c04, c07, c16, c18, cli,
 	evidence::{write_evidence, EvidenceInput},
 	harness::{self, plan_for, report_violations, run_batch, run_one, BatchCfg, BatchResult, ReplayFile, Scenario, Tier},
 	known,
@@ -40,6 +40,9 @@ pub fn with_scenario<V: Visitor>(name: &str, v: V) -> Option<V::Out> {
 		"c04_native" => v.visit(&c04::C04Native),
 		"c07_m1" => v.visit(&c07::C07M1),
 		"c07_m2" => v.visit(&c07::C07M2),
+		"c07_cli" => v.visit(&cli::C07Cli),
+		"c15_cli" => v.visit(&cli::C15Cli),
+		"c15_deps" => v.visit(&cli::C15Deps),
 		"c16_history" => v.visit(&c16::C16),
 		"c18_gc" => v.visit(&c18::C18Gc),
 		"c18_intern" => v.visit(&c18::C18Intern),
@@ -60,7 +63,8 @@ pub fn scenarios_of(property: &str) -> Vec<(&'static str, u64, u64)> {
 	match property {
 		"C03" => vec![("c03_demand", 60_000, 4_000_000)],
 		"C04" => vec![("c04_sweep", 1_500, 100_000), ("c04_history", 15_000, 1_500_000), ("c04_native", 250, 10_000)],
-		"C07" => vec![("c07_m1", 40_000, 3_000_000), ("c07_m2", 2_500, 150_000)],
+		"C07" => vec![("c07_m1", 40_000, 3_000_000), ("c07_m2", 8_000, 400_000), ("c07_cli", 800, 40_000)],
+		"C15" => vec![("c15_cli", 1_500, 60_000), ("c15_deps", 600, 30_000)],
 		"C16" => vec![("c16_history", 30_000, 2_000_000)],
 		"C18" => vec![
 			("c18_gc", 12_000, 600_000),
@@ -94,6 +98,13 @@ fn texts(property: &str) -> (&'static str, Vec<String>) {
 				"the model of the file DSL (jrsim/src/c07.rs, Model) is correct for the programs the generator emits".into(),
 				"scenario c07_m1 replaces FileImportResolver by a simulated disk; path search of the real resolver is covered by c07_m2 only".into(),
 				"guarded accessors (file_cache_entries) reflect the real cache; they are read-only".into(),
+			],
+		),
+		"C15" => (
+			"c15_cli: one case = a generated on-disk world plus a configuration (0-3 external variables and top-level arguments of each flavour str/code/str-file/code-file, 0-2 -J paths relative or absolute, JSONNET_PATH, output format -S/-y/-f yaml|toml|string/--line-padding, output to stdout/-o/-m with or without -c, --max-stack, input as file/-e/stdin, cwd) and a program that reads those variables and imports a world file; the jrsonnet executable's exit status, stdout bytes and created files are compared with the library API driven in-process by an option mapping written independently of the CLI plumbing. c15_deps: jrsonnet-deps on a world entry vs the files statically reachable in the world model, which must include every file an in-process evaluation loads. c15_capi: histories of libjsonnet C-API calls (see scenario text). Non-trivial = a non-default option, variable or output mode was used / more than one file is reachable; distinct = distinct event-log digests.",
+			vec![
+				"the harness's option-to-API mapping (cli.rs: library_run, manifest_format) is the reference for what 'the same configuration' means".into(),
+				"exploration by seeded configurations and histories, not a proof over all programs".into(),
 			],
 		),
 		"C16" => (
